@@ -62,8 +62,8 @@ def run(rep, tier, replay):
     xtab = [t for t in shapes.EXPAND_QUICK if t[0] in ("xq_cand_ok", "xq_garbage", "xq_straddle", "xq_f2", "xq_w1",
                                                         "xq_parse_err")]
     if tier == "thorough":
-        xtab = shapes.EXPAND_THOROUGH_FIXED + [shapes.random_expand_shape(rng, i) for i in range(12)]
-    mbad = sched.mc_legs(rep, [("compress", ctab), ("expand", xtab)], pol, timeout=600 if tier == "thorough" else 900)
+        xtab = shapes.EXPAND_THOROUGH_FIXED + [shapes.random_expand_shape(rng, i) for i in range(6)]
+    mbad = sched.mc_legs(rep, [("compress", ctab), ("expand", xtab)], pol, timeout=450 if tier == "thorough" else 900)
     for name, c, r in mbad:
         rep.sample({"model_counterexample": name, "violated": r.violated, "temporal": r.temporal, "shape": c})
     # ---- (V)
